@@ -85,6 +85,12 @@ TReply ==
   ELSE IF ~handled /\ (E.adjust # "" \/ E.updates # <<>>) THEN Reject("C15-result-invented", <<e>>)
   ELSE Go("replies", [s EXCEPT !.calls = 0, !.replied = @ \cup {e}])
 
+\* a later session of the same stub that asks for the default is subscribed to everything implemented
+TRestarted ==
+  IF E.err # "" THEN Reject("C15-restart-failed", <<E.err>>)
+  ELSE IF SetOf(E.events) # s.impl THEN Reject("C15-subscription-after-restart", <<E.events, s.impl>>)
+  ELSE Skip
+
 TEnd ==
   IF s.live /\ s.replied # EventSet THEN Reject("C15-events-missing", <<EventSet \ s.replied>>) ELSE Skip
 
@@ -94,6 +100,7 @@ TraceNext ==
        [] E.ev = "new"        -> TNew
        [] E.ev = "configured" -> TConfigured
        [] E.ev = "started"    -> TStarted
+       [] E.ev = "restarted"  -> TRestarted
        [] E.ev = "handler"    -> THandler
        [] E.ev = "reply"      -> TReply
        [] E.ev = "syncerr"    -> Reject("C15-synchronize", <<E.err>>)
